@@ -58,6 +58,19 @@ var (
 
 // Main initialises the recorder from the environment, runs the tests and flushes the evidence part file.
 func Main(m *testing.M, prop string) {
+	Init(prop)
+	Run(m)
+}
+
+// Run runs the tests and flushes the evidence part file.
+func Run(m *testing.M) {
+	code := m.Run()
+	Flush()
+	os.Exit(code)
+}
+
+// Init initialises the recorder from the environment.
+func Init(prop string) {
 	property = prop
 	if v := os.Getenv("VERIF_TIER"); v != "" {
 		tier = v
@@ -106,9 +119,6 @@ func Main(m *testing.M, prop string) {
 	flag.Parse()
 	_ = flag.Set("rapid.nofailfile", "true")
 	_ = flag.Set("rapid.seed", strconv.FormatUint(RapidSeed(), 10))
-	code := m.Run()
-	Flush()
-	os.Exit(code)
 }
 
 // RapidSeed is the PRNG value of this shard: a pure function of VERIF_SEED and the shard index (never 0).
